@@ -105,7 +105,7 @@ def run(ctx):
         exts = ['.fasta', '.fa.gz', '.fna', '.fasta.gz', '.fa', '.fasta', '.ffn.gz']
         for i, q in enumerate(pool):
             nm = q['name'] + exts[i % len(exts)]
-            files[i] = (nm, W.write_fasta(os.path.join(qdir, nm), q['contigs'], gz=nm.endswith('.gz'), members=[1, 3, 2][i % 3], width=[60, 7, 1000][i % 3], eol=['\n', '\r\n'][i % 2]))
+            files[i] = (nm, W.write_fasta(os.path.join(qdir, nm), q['contigs'], gz=nm.endswith('.gz'), members=[1, 3, 2][i % 3], width=[60, 7, 1000][i % 3], eol=['\n', '\r\n'][i % 2], mixed=(i % 3 == 1), lower=(i % 7 == 5)))
         # different genomes whose labels collide (same base name in two directories; x.fa vs x.fasta)
         # stacked extensions (only one FASTA extension is stripped: labels x.fa / y.fna), and a genome reached through a symbolic link
         # with another base name (the label comes from the name given on the command line)
